@@ -8,3 +8,78 @@ package route
 // lemmaLongestPrefixFirst: in a list of routes in descending path order, if the paths of routes k0 < k are both
 // prefixes of uri then the later one is not longer.
 func lemmaLongestPrefixFirst(rt Routes, uri string, k0, k int) {}
+
+// ---- counting lemmas for the weighted ring (weighTargets) -------------------------------------------------------
+
+// lemmaSumNFrame: two slot lists that agree on their first n entries have the same sum of slot counts there.
+func lemmaSumNFrame(a, b byN, n int) {
+	if n <= 0 {
+		return
+	}
+	lemmaSumNFrame(a, b, n-1)
+}
+
+// lemmaFilledFrame: two rings that agree on their first n entries have the same number of filled entries there.
+func lemmaFilledFrame(a, b []*Target, n int) {
+	if n <= 0 {
+		return
+	}
+	lemmaFilledFrame(a, b, n-1)
+}
+
+// lemmaFilledBound: the number of filled entries among the first n lies in 0..n.
+func lemmaFilledBound(ts []*Target, n int) {
+	if n <= 0 {
+		return
+	}
+	lemmaFilledBound(ts, n-1)
+}
+
+// lemmaFillOne: filling exactly one empty entry j (< n) raises the number of filled entries by one.
+func lemmaFillOne(a, b []*Target, n, j int) {
+	if n <= 0 {
+		return
+	}
+	if j == n-1 {
+		lemmaFilledFrame(a, b, n-1)
+	} else {
+		lemmaFillOne(a, b, n-1, j)
+	}
+}
+
+// lemmaFullNoNil: if all of the first n entries are counted as filled, entry j (< n) is filled.
+func lemmaFullNoNil(ts []*Target, n, j int) {
+	if n <= 0 {
+		return
+	}
+	lemmaFilledBound(ts, n-1)
+	if j < n-1 {
+		lemmaFullNoNil(ts, n-1, j)
+	}
+}
+
+// lemmaAllNilZero: a ring whose first n entries are all empty has no filled entry there.
+func lemmaAllNilZero(ts []*Target, n int) {
+	if n <= 0 {
+		return
+	}
+	lemmaAllNilZero(ts, n-1)
+}
+
+// lemmaRecipBound: 1/n lies in (0, 1] for every positive count n.
+func lemmaRecipBound(n int) {}
+
+// lemmaModRange: for a >= 0 and m > 0 the remainder a % m lies in 0..m-1.
+func lemmaModRange(a, m int) {}
+
+// lemmaDivLe: for a >= 0 and b >= 1 the quotient a / b lies in 0..a.
+func lemmaDivLe(a, b int) {}
+
+// lemmaRatioBound: a positive part of a whole is a share in (0, 1].
+func lemmaRatioBound(a, b float64) {}
+
+// lemmaShareBound: dividing at most 100% equally among k >= 1 receivers gives each at most 100%; the sign is kept.
+func lemmaShareBound(x float64, k int) {}
+
+// lemmaLivePickIn: a live pick is one of the targets (unfolds the definition of livePick).
+func lemmaLivePickIn(ts []*Target, p *Target) {}
